@@ -181,6 +181,16 @@ def gen_cases(ctx: Ctx) -> List[Dict[str, Any]]:
         sc2 = dict(sc, steps=10, cad=dict(sc["cad"], ckpt=2))
         cases.append({"sc": sc2, "crashes": [dict(step=3, upto=int(rng.integers(0, 8)), hard=bool(rng.integers(0, 2))), dict(step=int(rng.integers(6, 9)), upto=int(rng.integers(0, 8)), hard=False),
                                              dict(step=10, upto=int(rng.integers(0, 4)), hard=bool(rng.integers(0, 2)))][: int(rng.integers(2, 4))]})
+    # excited-state surface (real CIS engine) and density reuse switched off
+    ex = {"excited_states": {"n_states": 2, "method": "cis"}, "active_state": 1}
+    xcases = [("basic", ex, True), ("xl", ex, True), ("basic", {}, False), ("langevin", ex, False)]
+    for i, (eng, sq, reuse) in enumerate(xcases if ctx.thorough else [xcases[ctx.seed % 2], xcases[2]]):
+        sc = sc_(dict(data=1, coordinates=1, velocities=1, forces=0, xyz=int(rng.choice([0, 1])), print=0, ckpt=2), 5, engine=eng, stub=False, mols=("h2o",), k=4)
+        sc["seqm"] = dict(sq)
+        sc["reuse_P"] = reuse
+        if eng == "langevin":
+            sc["damp"] = 20.0
+        cases.append({"sc": sc, "crashes": [dict(step=int(rng.integers(3, 6)), upto=int(rng.integers(0, 7)), hard=bool(rng.integers(0, 2)))]})
     # re-parameterised runs (learned parameters given as tensors): the resumed run must use the same parameters
     lcases = [({"U_ss": 1.02}, "basic", ("h2o",)), ({"zeta_s": 1.03, "beta_s": 0.98}, "xl", ("h2o", "h2"))]
     for i, (lp, eng, mols) in enumerate(lcases if ctx.thorough else [lcases[ctx.seed % 2]]):
